@@ -154,13 +154,18 @@ def run(run):
         if not thorough:
             configs = configs[seed() % 2::2] + [configs[(seed() + 1) % 4]]
         configs = list(configs) + [(0, 1)]      # (0, .): the reduced pool {1, 3, 8} with the incomplete identification, real limit 2
+        # thorough: every configuration with histories of three operations over the whole pool, and two of them with histories of
+        # four over a reduced pool (the state graph grows by a factor of about 25 per step over the ten messages)
+        runs = [(tgl, cmax, None, 3) for (tgl, cmax) in configs]
+        if thorough:
+            runs += [(1, 1, '{1, 2, 4, 7, 9, 11}', 4), (2, 2, '{1, 3, 5, 7, 10, 11}', 4)]
         batches = []
-        for (tgl, cmax) in configs:
+        for (tgl, cmax, msgs_, maxlen) in runs:
             small = tgl == 0        # the reduced pool around the message whose tables are incomplete (see below)
-            consts = {'Msgs': '{1, 2, 3, 4, 5, 6, 7, 9, 10, 11}' if not small else '{1, 3, 8}', 'KeyOf': '<<' + ', '.join(str(keys.index(pool[m]['key']) + 1) for m in range(1, 12)) + '>>',
+            consts = {'Msgs': (msgs_ or '{1, 2, 3, 4, 5, 6, 7, 9, 10, 11}') if not small else '{1, 3, 8}', 'KeyOf': '<<' + ', '.join(str(keys.index(pool[m]['key']) + 1) for m in range(1, 12)) + '>>',
                       'TmplOf': '<<' + ', '.join(str(tmpls.index(pool[m]['tmpl']) + 1) for m in range(1, 12)) + '>>',
-                      'Bad': '{7, 9, 10}', 'Lenient': '{7}', 'Strict': '{8}' if small else '{}', 'TgLimit': str(tgl if not small else 2), 'CompMax': str(cmax), 'MaxLen': '4' if thorough else '3'}
-            name = 'MC_caches_%d_%s' % (tgl, str(cmax).replace('-', 'm'))
+                      'Bad': '{7, 9, 10}', 'Lenient': '{7}', 'Strict': '{8}' if small else '{}', 'TgLimit': str(tgl if not small else 2), 'CompMax': str(cmax), 'MaxLen': str(maxlen)}
+            name = 'MC_caches_%d_%s_%d' % (tgl, str(cmax).replace('-', 'm'), maxlen)
             text = tlc.mc_module(name, ['Caches'], consts)
             cfg = tlc.mc_cfg(consts, invariants=['SizeBounded', 'NoDuplicateKeys', 'LastRequestedIsCached'], action_constraints=['EmitTransition'], view='View')
             res = tlc.run(wd, name, cfg, text, coverage=False, lazy_emitted=True, timeout=3000)
